@@ -302,16 +302,35 @@ class C07(PropertyCheck):
     id = "C07"
     lean_modules = ["QipVerif.Props.C07"]
     drivers = ["drv_route"]
-    theorems = []
+    theorems = ["QipVerif.C07." + t for t in (
+        "route_in_range", "route_adjacent", "route_shape_ctl", "route_shape_swp", "route_passthrough",
+        "route_concat", "route_append", "route_total", "circuit_passthrough_order", "circuit_in_range",
+        "circuit_adjacent", "route_den_gate", "route_den", "adjacent_gates_eq_linear",
+        "adjacent_gates_refuses_measurement", "C07_counterexample_range_old", "C07_counterexample_roles_old",
+        "C07_counterexample_arg_old", "C07_counterexample_meas_old")]
     technique = ("Lean 4 proof (closed form of the routing loop by induction, permutation tracking, monoid-level "
                  "conjugation argument) + exhaustive model/implementation correspondence on gate lists")
-    level_text = ""
-    level_note = ""
+    level_text = ("Lean 4 theorems about the model of to_chain_structure / adjacent_gates with the repairs "
+                  "fixes/C07-1..4 applied, for every register size N, both topologies, every ordered pair of distinct "
+                  "in-range qubits and every handled gate name (no bound): all emitted indices < N; every emitted gate is "
+                  "a two-qubit gate on neighbours (or the wrap pair of a ring); the output is S ++ [G] ++ reverse(S) with S "
+                  "SWAPs that move control to G's control and target to G's target; unhandled gates pass through "
+                  "unchanged and in order, circuits are routed gate by gate; and over any monoid with the single "
+                  "hypothesis SwapLaws the routed circuit has the same product. The code as found violates the property "
+                  "(four counter-example theorems, each confirmed on the real code). The model is tied to the code by an "
+                  "exhaustive comparison of gate lists for N <= 14 (quick) / 40 (thorough).")
+    level_note = ("Trusted: Lean kernel (axioms propext, Classical.choice, Quot.sound); the harness py/props/c07.py; the "
+                  "instantiation of SwapLaws for Circuit.den over C (embed_perm) is supplied centrally, not here.")
     trusted_base = [
         "Lean 4.33 kernel; axioms propext, Classical.choice, Quot.sound",
         "py/props/c07.py (harness: gate objects -> (name, controls, targets, arg label, extra label))",
     ]
-    assumptions = []
+    assumptions = [
+        "SwapLaws (Lemmas/RouteDen.lean): SWAP(i,j)^2 = 1, SWAP(i,j) G SWAP(i,j) = G relabelled by (i j) for two-qubit "
+        "gates on distinct in-range qubits, exchange-type gates are symmetric in their two targets",
+        "handled input gates are well-formed (one control + one target, resp. two targets, distinct, in range) and carry "
+        "no classical controls (the router does not copy them); other inputs are covered by the correspondence only",
+    ]
     rule = ("case = (N, setup, api, gate list); exhaustive stream: one handled gate on every ordered pair of distinct "
             "qubits; non-trivial = at least one handled gate on non-neighbouring qubits; malformed stream counted "
             "separately")
